@@ -7,7 +7,7 @@ if [ -n "$(git status --porcelain --untracked-files=no)" ]; then echo "/repo not
 git apply "$patch" 2>/dev/null || { echo "patch does not apply to the current tree (port it by hand)"; git reset -q --hard; exit 2; }
 for id in "$@"; do
   out=$(cd /verif && ./vcheck "$id" "${TIER:-quick}" 2>&1); rc=$?
-  echo "== $id exit=$rc $(echo "$out" | grep -c '^VIOLATION') violation line(s)"
-  echo "$out" | grep -A2 '^VIOLATION\|^HARNESS-ERROR' | head -${LINES_MAX:-12}
+  echo "== $id exit=$rc $(echo "$out" | grep -a -c "^VIOLATION") violation line(s)"
+  echo "$out" | grep -a -A2 '^VIOLATION\|^HARNESS-ERROR' | head -${LINES_MAX:-12}
 done
 git reset -q --hard
